@@ -479,16 +479,47 @@ impl Retrier {
                 })?;
         }
 
-        while self.has_pending_appointments() {
+        loop {
+            // Appointments may have been stored as pending for this tower without the retrier being told about them (e.g. if they
+            // arrived while the tower was flagged as unreachable and the retrier was about to be re-started), so the database has
+            // the last word on whether we are done.
+            let stored_pending = {
+                let mut wt_client = self.wt_client.lock().unwrap();
+                let stored_pending = wt_client
+                    .dbm
+                    .load_appointment_locators(tower_id, crate::AppointmentStatus::Pending);
+                if stored_pending.is_empty() && wt_client.towers.contains_key(&tower_id) {
+                    // Flag the tower as reachable while the state is locked, so from this point on
+                    // new appointments are sent straight to the tower.
+                    wt_client.set_tower_status(tower_id, TowerStatus::Reachable);
+                }
+                stored_pending
+            };
+            self.pending_appointments
+                .lock()
+                .unwrap()
+                .extend(stored_pending);
+            if !self.has_pending_appointments() {
+                break;
+            }
+
             let locators = self.pending_appointments.lock().unwrap().clone();
             for locator in locators.into_iter() {
-                let appointment = self
+                let appointment = match self
                     .wt_client
                     .lock()
                     .unwrap()
                     .dbm
                     .load_appointment(locator)
-                    .unwrap();
+                {
+                    Some(appointment) => appointment,
+                    None => {
+                        // We may have been told about an appointment that has already been taken care of (it is not pending anymore)
+                        log::debug!("{locator} is not pending anymore. Skipping it");
+                        self.pending_appointments.lock().unwrap().remove(&locator);
+                        continue;
+                    }
+                };
 
                 match http::add_appointment(
                     tower_id,
